@@ -21,9 +21,10 @@ func c14(c *rt.Ctx) {
 	c.Rule("M1", 16, func() { c14M1(c) })
 	c.Rule("M2", 7, func() { c14M2(c) })
 	c.Rule("M3", 26, func() { c14M3(c) })
-	c.Rule("M4", 15, func() { c14M4(c) })
+	c.Rule("M4", 4, func() { c14M4(c) }) // structural minimum: two decoders x (recover, at least one decode call under it)
 	c.Rule("M5", 34, func() { c14M5(c) })
 	c.Rule("M6", 70, func() { c14M6(c) })
+	c.Rule("M8", 4, func() { c14M8(c) })
 }
 
 // ---------------------------------------------------------------------------------------------
@@ -110,7 +111,7 @@ func c14DependsCV(st *symState, v ssa.Value, f int, tag symCV, depth int) bool {
 	if c14Carries(tag, c) || c14Carries(c, tag) {
 		return true
 	}
-	if depth > 6 || c.p != "" {
+	if depth > 6 || (c.p != "" && !strings.HasPrefix(c.p, "#")) {
 		return false
 	}
 	in, ok := c.v.(ssa.Instruction)
@@ -296,6 +297,11 @@ func c14M1(c *rt.Ctx) {
 		pkgs = append(pkgs, rel)
 	}
 	sort.Strings(pkgs)
+	var spkgs []*ssa.Package
+	for _, rel := range pkgs {
+		spkgs = append(spkgs, c.P.SSAPkg(rel))
+	}
+	flow := newC14Flow(spkgs)
 	for _, rel := range pkgs {
 		sp := c.P.SSAPkg(rel)
 		if sp == nil {
@@ -323,7 +329,7 @@ func c14M1(c *rt.Ctx) {
 				if duty == nil || !hasSet {
 					continue
 				}
-				for _, o := range c14DutyOrigins(duty, 0) {
+				for _, o := range flow.origins(duty, 0) {
 					switch o.kind {
 					case "ctor":
 						if _, seen := signed[o.name]; !seen {
@@ -387,104 +393,6 @@ func c14M1(c *rt.Ctx) {
 }
 
 type c14Origin struct{ kind, name string }
-
-// c14DutyOrigins classifies where a core.Duty value comes from: a duty constructor of package
-// core ("ctor", constant name), a parameter / decoded / received value ("forwarded"), or unknown.
-func c14DutyOrigins(v ssa.Value, depth int) []c14Origin {
-	if depth > 8 {
-		return []c14Origin{{"unknown", "too deep"}}
-	}
-	v = an.Resolve(v)
-	switch x := v.(type) {
-	case *ssa.Parameter:
-		return []c14Origin{{"forwarded", "parameter"}}
-	case *ssa.Phi:
-		var out []c14Origin
-		for _, e := range x.Edges {
-			out = append(out, c14DutyOrigins(e, depth+1)...)
-		}
-		return out
-	case *ssa.Call:
-		callee := x.Call.StaticCallee()
-		if callee == nil {
-			return []c14Origin{{"forwarded", "dynamic call"}}
-		}
-		if callee.Pkg == nil || callee.Pkg.Pkg.Path() != load.Mod+"/core" || callee.Blocks == nil {
-			return []c14Origin{{"forwarded", "result of " + an.FuncName(callee)}}
-		}
-		// constructor: stores one DutyType constant into the Type field of the result
-		var names []string
-		for _, in := range an.Instrs(callee, false) {
-			st, ok := in.(*ssa.Store)
-			if !ok {
-				continue
-			}
-			t, name, _, ok := c14FieldSel(st.Addr)
-			if !ok || an.TypeName(t) != "core.Duty" || name != "Type" {
-				continue
-			}
-			k, isK := st.Val.(*ssa.Const)
-			if !isK {
-				return []c14Origin{{"forwarded", "computed by " + an.FuncName(callee)}}
-			}
-			if n := c14ConstName(c14Named(k.Type()), k); n != "" {
-				names = append(names, n)
-			}
-		}
-		if len(names) == 1 {
-			return []c14Origin{{"ctor", names[0]}}
-		}
-		return []c14Origin{{"forwarded", "result of " + an.FuncName(callee)}}
-	case *ssa.UnOp:
-		if x.Op == token.MUL {
-			if fv, ok := x.X.(*ssa.FreeVar); ok {
-				fn := fv.Parent()
-				idx := -1
-				for i, f := range fn.FreeVars {
-					if f == fv {
-						idx = i
-					}
-				}
-				if fn.Parent() != nil && idx >= 0 {
-					for _, in := range an.Instrs(fn.Parent(), false) {
-						if mc, ok := in.(*ssa.MakeClosure); ok && mc.Fn == ssa.Value(fn) {
-							if al, ok := mc.Bindings[idx].(*ssa.Alloc); ok {
-								var out []c14Origin
-								for _, ref := range *al.Referrers() {
-									if st, ok := ref.(*ssa.Store); ok && st.Addr == ssa.Value(al) {
-										out = append(out, c14DutyOrigins(st.Val, depth+1)...)
-									}
-								}
-								if len(out) > 0 {
-									return out
-								}
-							}
-						}
-					}
-				}
-				return []c14Origin{{"unknown", "captured variable"}}
-			}
-			if al, ok := x.X.(*ssa.Alloc); ok {
-				var out []c14Origin
-				for _, ref := range *al.Referrers() {
-					if st, ok := ref.(*ssa.Store); ok && st.Addr == ssa.Value(al) {
-						out = append(out, c14DutyOrigins(st.Val, depth+1)...)
-					}
-				}
-				if len(out) > 0 {
-					return out
-				}
-			}
-			return []c14Origin{{"forwarded", "loaded from memory"}}
-		}
-		if x.Op == token.ARROW {
-			return []c14Origin{{"forwarded", "received from channel"}}
-		}
-	case *ssa.Extract, *ssa.Field, *ssa.Lookup, *ssa.Index, *ssa.TypeAssert:
-		return []c14Origin{{"forwarded", "component of another value"}}
-	}
-	return []c14Origin{{"unknown", fmt.Sprintf("%T", v)}}
-}
 
 func init() {
 	Register(&Prop{
@@ -1095,8 +1003,17 @@ func c14M4(c *rt.Ctx) {
 	} {
 		fn := c.Fn(it.fn)
 		isSink := an.Static(it.sink)
-		if !c14Contains(fn, isSink, 0, map[*ssa.Function]bool{}) {
-			c.Bail("no call to %s in %s (or its helpers)", it.sink, it.fn)
+		// a decoder may also be reached through a function value (a table of decoders, a func-typed parameter):
+		// such a call is a possible decode call and has to run under the armed recover as well
+		isDyn := func(cc *ssa.CallCommon) bool {
+			if cc.IsInvoke() || cc.StaticCallee() != nil {
+				return false
+			}
+			_, isB := cc.Value.(*ssa.Builtin)
+			return !isB
+		}
+		if !c14Contains(fn, isSink, 0, map[*ssa.Function]bool{}) && !c14Contains(fn, isDyn, 0, map[*ssa.Function]bool{}) {
+			c.Bail("no call to %s and no call through a function value in %s (or its helpers)", it.sink, it.fn)
 		}
 		// a decoder that hands its whole job to one helper of the package (which then owns the deferred recover and
 		// the decode calls) is judged on that helper
@@ -1154,12 +1071,34 @@ func c14M4(c *rt.Ctx) {
 		// every decode call (in the function or in a helper explored in place) runs after the recover was armed
 		agg := newC14Agg()
 		construct := it.fn + " recover armed before " + it.sink
+		inlineSink := c14InlineIf(fn, func(cc *ssa.CallCommon) bool { return isSink(cc) || isDyn(cc) })
 		complete := symExplore(fn, symHooks{
-			Inline: c14InlineIf(fn, isSink),
+			Inline: func(x *symX, site ssa.CallInstruction, callee *ssa.Function) bool {
+				if inlineSink(x, site, callee) {
+					return true
+				}
+				if !c14SamePkg(callee, fn) {
+					return false
+				}
+				for _, a := range site.Common().Args { // a helper that is handed the decoding closure
+					if x.IsClosureArg(a) {
+						return true
+					}
+				}
+				return false
+			},
 			Before: func(x *symX, in ssa.Instruction) {
 				call, ok := in.(*ssa.Call)
-				if !ok || !isSink(&call.Call) {
+				if !ok {
 					return
+				}
+				dyn := false
+				if !isSink(&call.Call) {
+					// a call through a function value the explorer could not resolve on this path
+					if !isDyn(&call.Call) || x.DynCallee(call) != nil {
+						return
+					}
+					dyn = true
 				}
 				ok = false
 				for _, ev := range x.Trace() {
@@ -1167,9 +1106,12 @@ func c14M4(c *rt.Ctx) {
 						ok = true
 					}
 				}
-				if ok {
+				switch {
+				case ok:
 					agg.addAt(construct, x.Chain(), call.Pos(), c14OK, "")
-				} else {
+				case dyn:
+					agg.addAt(construct, x.Chain(), call.Pos(), c14Unsure, "a call through a function value (possibly a decoder) runs before the deferred recover is armed")
+				default:
 					agg.addAt(construct, x.Chain(), call.Pos(), c14Bad, "the decode call is not preceded by the deferred recover on every path: a panicking decoder crashes the caller")
 				}
 			},
@@ -1498,10 +1440,19 @@ func c14FreshCV(x *symX, c, recv symCV, recvType types.Type, depth int) (int, st
 			if !isStore || !ev.Addr || ev.Base != c {
 				continue
 			}
-			// `for i := range recv { buf[i] = recv[i] }`: a loop over the receiver that cannot be left early
-			if ev.Val.v == recv.v && ev.Val.f == recv.f && ev.Path != "" && strings.HasSuffix(ev.Val.p, ev.Path) {
-				if l := an.InnermostLoop(st.Parent(), st.Block()); l != nil && an.LoopEarlyExit(l) == nil {
-					if rc := l.RangeColl(); rc != nil && x.st.resolve(rc, ev.Frame) == recv {
+			// `for i := range recv { buf[i] = recv[i] }` (plain elements) or `buf[i] = checked Clone() of recv[i]`:
+			// a loop over the receiver, indexed by its own index variable, that is left early only towards
+			// failing returns
+			sameElem := ev.Val.v == recv.v && ev.Val.f == recv.f && ev.Path != "" && strings.HasSuffix(ev.Val.p, ev.Path)
+			if !sameElem && ev.Path != "" {
+				if src, ok := c14ElemCloneSrc(x, ev.Val, recv); ok && strings.HasSuffix(src.p, ev.Path) {
+					sameElem = true
+				}
+			}
+			if sameElem {
+				if l := an.InnermostLoop(st.Parent(), st.Block()); l != nil && c14LoopExitsFail(l) {
+					ia, isIA := st.Addr.(*ssa.IndexAddr)
+					if rc := l.RangeColl(); rc != nil && x.st.resolve(rc, ev.Frame) == recv && isIA && c14IsLoopIndex(l, ia.Index) {
 						return c14OK, ""
 					}
 				}
@@ -1645,6 +1596,145 @@ func c14IsSpillOf(x *symX, c, recv symCV) bool {
 	}
 	src := an.UniqueStore(al)
 	return src != nil && x.st.resolve(src, c.f) == recv
+}
+
+// c14IsLoopIndex: v is the index variable of loop l (the header phi, or phi+1 as go/ssa writes range-over-slice).
+func c14IsLoopIndex(l *an.Loop, v ssa.Value) bool {
+	v = an.Unwrap(v)
+	if p, ok := v.(*ssa.Phi); ok {
+		return p.Block() == l.Header
+	}
+	if b, ok := v.(*ssa.BinOp); ok && b.Op == token.ADD && l.Body[b.Block()] {
+		if p, ok := b.X.(*ssa.Phi); ok && p.Block() == l.Header {
+			if k, ok := an.ConstInt(b.Y); ok && k == 1 {
+				return true
+			}
+		}
+	}
+	return false
+}
+
+// c14LoopExitsFail: the loop is left before its collection is exhausted only towards returns whose error result is
+// known non-nil (`if err != nil { return nil, err }`, `return nil, errors.New(...)`).
+func c14LoopExitsFail(l *an.Loop) bool {
+	for b := range l.Body {
+		if b == l.Header {
+			continue
+		}
+		for _, s := range b.Succs {
+			if l.Body[s] {
+				continue
+			}
+			seen := map[*ssa.BasicBlock]bool{}
+			var ok func(blk *ssa.BasicBlock) bool
+			ok = func(blk *ssa.BasicBlock) bool {
+				if seen[blk] {
+					return true
+				}
+				seen[blk] = true
+				if l.Body[blk] || len(blk.Instrs) == 0 {
+					return false
+				}
+				switch t := blk.Instrs[len(blk.Instrs)-1].(type) {
+				case *ssa.Panic:
+					return true
+				case *ssa.Return:
+					if len(t.Results) == 0 {
+						return false
+					}
+					e := t.Results[len(t.Results)-1]
+					return an.IsErrorType(e.Type()) && c14NonNilAt(e, blk)
+				}
+				for _, n := range blk.Succs {
+					if !ok(n) {
+						return false
+					}
+				}
+				return len(blk.Succs) > 0
+			}
+			if !ok(s) {
+				return false
+			}
+		}
+	}
+	return true
+}
+
+// c14NonNilAt: the error value v is known non-nil in block blk: freshly constructed, or blk is only reached through
+// the non-nil edge of a nil test of v.
+func c14NonNilAt(v ssa.Value, blk *ssa.BasicBlock) bool {
+	switch y := v.(type) {
+	case *ssa.MakeInterface:
+		return true
+	case *ssa.Call:
+		if symAlwaysNonNilErr(y.Call.StaticCallee(), 0, 0) {
+			return true
+		}
+	}
+	for d := blk; d != nil && d.Idom() != nil; d = d.Idom() {
+		p := d.Idom()
+		iff, ok := p.Instrs[len(p.Instrs)-1].(*ssa.If)
+		if !ok {
+			continue
+		}
+		bin, ok := iff.Cond.(*ssa.BinOp)
+		if !ok || (bin.Op != token.NEQ && bin.Op != token.EQL) {
+			continue
+		}
+		var o ssa.Value
+		switch {
+		case symIsNilConst(bin.X):
+			o = bin.Y
+		case symIsNilConst(bin.Y):
+			o = bin.X
+		default:
+			continue
+		}
+		if o != v {
+			continue
+		}
+		t := p.Succs[0]
+		if bin.Op == token.EQL {
+			t = p.Succs[1]
+		}
+		if len(t.Preds) == 1 && (t == blk || t.Dominates(blk)) {
+			return true
+		}
+	}
+	return false
+}
+
+// c14ElemCloneSrc: e is (a checked type assertion of) the successful Clone() of a component of the receiver; the
+// component is returned.
+func c14ElemCloneSrc(x *symX, e, recv symCV) (symCV, bool) {
+	for i := 0; i < 6; i++ {
+		e = x.UnboxCV(e)
+		switch y := e.v.(type) {
+		case *ssa.TypeAssert:
+			if e.p != "" && e.p != "#0" {
+				return symCV{}, false
+			}
+			e = x.st.resolve(y.X, e.f)
+			continue
+		case *ssa.Call:
+			f := y.Call.StaticCallee()
+			if f == nil || (f.Name() != "Clone" && f.Name() != "clone") || (e.p != "" && e.p != "#0") {
+				return symCV{}, false
+			}
+			if x.CallOK(y, e.f) != 1 {
+				return symCV{}, false
+			}
+			for _, ev := range x.Trace() {
+				if ev.In == ssa.Instruction(y) && ev.Frame == e.f && len(ev.Args) > 0 {
+					a := ev.Args[0]
+					return a, a.v == recv.v && a.f == recv.f && a.p != ""
+				}
+			}
+			return symCV{}, false
+		}
+		return symCV{}, false
+	}
+	return symCV{}, false
 }
 
 // c14ElemCloneCV: e is (a checked type assertion of) the successful Clone() of a component of the receiver.
@@ -2327,7 +2417,7 @@ func c14TouchOf(fn *ssa.Function, w c14Wrap, nullable map[string]bool, libOK fun
 			}
 			for _, a := range site.Common().Args {
 				ac := x.Unbox(a)
-				if ac.v == recv.v && ac.f == recv.f {
+				if ac.v == recv.v && ac.f == recv.f || x.IsClosureArg(a) {
 					return true
 				}
 			}
@@ -2567,7 +2657,7 @@ func c14M3(c *rt.Ctx) {
 				return true
 			}
 			for _, a := range site.Common().Args {
-				if x.R(a) == data {
+				if x.R(a) == data || x.IsClosureArg(a) {
 					return true
 				}
 			}
@@ -2722,7 +2812,8 @@ func c14M3(c *rt.Ctx) {
 	}
 
 	// unsigned data decided by consensus: dutydb consumes the decoded value only through its clone
-	for _, fn := range an.PkgFuncs(c.SSAPkg("core/dutydb")) {
+	dbFuncs := an.PkgFuncs(c.SSAPkg("core/dutydb"))
+	for _, fn := range dbFuncs {
 		if fn.Parent() != nil {
 			continue
 		}
@@ -2730,8 +2821,18 @@ func c14M3(c *rt.Ctx) {
 			if _, isPtr := p.Type().(*types.Pointer); isPtr || an.TypeName(p.Type()) != "core.UnsignedData" {
 				continue
 			}
-			st, why := c14OnlyViaClone(fn, p)
 			construct := an.FuncName(fn) + " uses decoded unsigned data only via Clone()"
+			// A helper that is only ever handed the re-encoded clone (never the decoded value, never used as a
+			// function value) receives no decoded data: the obligation lies with its callers.
+			prov := c14ParamProvenance(dbFuncs, fn, p, map[*ssa.Parameter]bool{})
+			if prov == c14ProvClean {
+				c.Good(construct, fn.Pos(), "every call site passes the result of Clone()")
+				continue
+			}
+			st, why := c14OnlyViaClone(fn, p)
+			if st == c14Bad && prov == c14ProvUnknown {
+				st, why = c14Unsure, "cannot tell whether the callers pass decoded data or its clone; "+why
+			}
 			switch st {
 			case c14OK:
 				c.Good(construct, fn.Pos(), "")
@@ -2742,6 +2843,161 @@ func c14M3(c *rt.Ctx) {
 			}
 		}
 	}
+}
+
+const (
+	c14ProvClean   = iota // every caller passes the (type-asserted / boxed) result of a Clone() invocation
+	c14ProvDecoded        // the function is an entry point, is used as a function value, or a caller passes its own un-cloned parameter
+	c14ProvUnknown
+)
+
+// c14ParamProvenance classifies what the in-package callers of fn hand to its parameter p.
+func c14ParamProvenance(pkgFuncs []*ssa.Function, fn *ssa.Function, p *ssa.Parameter, busy map[*ssa.Parameter]bool) int {
+	if busy[p] {
+		return c14ProvClean // recursion: decided by the other call sites
+	}
+	busy[p] = true
+	defer delete(busy, p)
+	idx := -1
+	for i, q := range fn.Params {
+		if q == p {
+			idx = i
+		}
+	}
+	if idx < 0 || fn.Object() == nil || fn.Object().Exported() {
+		return c14ProvDecoded
+	}
+	sameFn := func(v ssa.Value) bool {
+		g, ok := v.(*ssa.Function)
+		return ok && (g == fn || g.Object() != nil && g.Object() == fn.Object())
+	}
+	nSites, worst := 0, c14ProvClean
+	for _, caller := range pkgFuncs {
+		for _, in := range an.Instrs(caller, false) {
+			if _, isDbg := in.(*ssa.DebugRef); isDbg {
+				continue
+			}
+			var site *ssa.CallCommon
+			if ci, ok := in.(ssa.CallInstruction); ok && ci.Common().StaticCallee() == fn && !ci.Common().IsInvoke() {
+				if _, isCall := in.(*ssa.Call); isCall {
+					site = ci.Common()
+				}
+			}
+			for _, op := range in.Operands(nil) {
+				if op == nil || *op == nil || !sameFn(*op) {
+					continue
+				}
+				if site != nil && *op == site.Value {
+					continue
+				}
+				return c14ProvDecoded // function value (table entry, method expression, go/defer): callers unknown
+			}
+			if site == nil || idx >= len(site.Args) {
+				continue
+			}
+			nSites++
+			switch c14ValueProvenance(pkgFuncs, site.Args[idx], busy, 0) {
+			case c14ProvDecoded:
+				return c14ProvDecoded
+			case c14ProvUnknown:
+				worst = c14ProvUnknown
+			}
+		}
+	}
+	if nSites == 0 {
+		return c14ProvDecoded
+	}
+	return worst
+}
+
+// c14ContainerProvenance: an element of a set of unsigned data. The set handed to an exported entry point of the
+// package (MemDB.Store) holds the values as decoded by consensus - nothing in this package has cloned them.
+func c14ContainerProvenance(m ssa.Value) int {
+	if p, ok := an.Resolve(m).(*ssa.Parameter); ok && p.Parent() != nil && p.Parent().Parent() == nil {
+		if obj := p.Parent().Object(); obj != nil && obj.Exported() {
+			return c14ProvDecoded
+		}
+	}
+	return c14ProvUnknown
+}
+
+func c14ValueProvenance(pkgFuncs []*ssa.Function, v ssa.Value, busy map[*ssa.Parameter]bool, depth int) int {
+	if depth > 12 {
+		return c14ProvUnknown
+	}
+	switch y := v.(type) {
+	case *ssa.MakeInterface:
+		return c14ValueProvenance(pkgFuncs, y.X, busy, depth+1)
+	case *ssa.ChangeInterface:
+		return c14ValueProvenance(pkgFuncs, y.X, busy, depth+1)
+	case *ssa.ChangeType:
+		return c14ValueProvenance(pkgFuncs, y.X, busy, depth+1)
+	case *ssa.TypeAssert:
+		return c14ValueProvenance(pkgFuncs, y.X, busy, depth+1)
+	case *ssa.Lookup:
+		return c14ContainerProvenance(y.X)
+	case *ssa.Extract:
+		if ta, ok := y.Tuple.(*ssa.TypeAssert); ok && y.Index == 0 {
+			return c14ValueProvenance(pkgFuncs, ta.X, busy, depth+1)
+		}
+		if lk, ok := y.Tuple.(*ssa.Lookup); ok && y.Index == 0 {
+			return c14ContainerProvenance(lk.X)
+		}
+		if nx, ok := y.Tuple.(*ssa.Next); ok {
+			if rg, ok := nx.Iter.(*ssa.Range); ok {
+				return c14ContainerProvenance(rg.X)
+			}
+		}
+		if call, ok := y.Tuple.(*ssa.Call); ok && y.Index == 0 && call.Call.IsInvoke() && call.Call.Method.Name() == "Clone" {
+			return c14ProvClean
+		}
+	case *ssa.Call:
+		if y.Call.IsInvoke() && y.Call.Method.Name() == "Clone" {
+			return c14ProvClean
+		}
+	case *ssa.Phi:
+		worst := c14ProvClean
+		for _, e := range y.Edges {
+			switch c14ValueProvenance(pkgFuncs, e, busy, depth+1) {
+			case c14ProvDecoded:
+				return c14ProvDecoded
+			case c14ProvUnknown:
+				worst = c14ProvUnknown
+			}
+		}
+		return worst
+	case *ssa.UnOp:
+		if al, ok := y.X.(*ssa.Alloc); ok && y.Op == token.MUL && al.Referrers() != nil {
+			worst, n := c14ProvClean, 0
+			for _, ref := range *al.Referrers() {
+				switch r := ref.(type) {
+				case *ssa.Store:
+					if r.Addr != ssa.Value(al) {
+						return c14ProvUnknown
+					}
+					n++
+					switch c14ValueProvenance(pkgFuncs, r.Val, busy, depth+1) {
+					case c14ProvDecoded:
+						return c14ProvDecoded
+					case c14ProvUnknown:
+						worst = c14ProvUnknown
+					}
+				case *ssa.UnOp, *ssa.DebugRef:
+				default:
+					return c14ProvUnknown
+				}
+			}
+			if n == 0 {
+				return c14ProvUnknown
+			}
+			return worst
+		}
+	case *ssa.Parameter:
+		if an.TypeName(y.Type()) == "core.UnsignedData" && y.Parent() != nil {
+			return c14ParamProvenance(pkgFuncs, y.Parent(), y, busy)
+		}
+	}
+	return c14ProvUnknown
 }
 
 // c14OnlyViaClone: on every path of fn (helpers of the package that receive the value are explored in place) the
